@@ -2,6 +2,7 @@ package rules
 
 import (
 	"fmt"
+	"go/ast"
 	"go/constant"
 	"go/token"
 	"go/types"
@@ -1605,6 +1606,61 @@ func round10Specific(c *core.Ctx, rule string) []core.Obligation {
 		} else {
 			ob(rule, construct, fn, token.NoPos, !hasCall(fn, "EdgeOrVertexChainCrossing", "ChainCrossingSign", "RestartAt"), "each clipped edge is tested with both of its endpoints",
 				"the clipped edges are walked as a vertex chain (RestartAt / EdgeOrVertexChainCrossing): the edge ids of a polygon run across loop boundaries, so the first edge of a loop that shares an index cell with the last edge of the previous loop is replaced by a phantom edge between the two loops, and ContainsCell / IntersectsCell / ContainsPoint report the opposite of brute force")
+		}
+	}
+
+	// C20-r11m2: wrapDestination treats the x and the y coordinate alike (the y branch is the x branch with x, X
+	// replaced by y, Y); an incomplete renaming wraps y with the period of x.
+	if rule == "R-TOLERANCE" {
+		fn := c.LookupFunc("s2", "", "wrapDestination")
+		construct := "wrapDestination:x-and-y-alike"
+		if fn == nil || c.Decl(fn) == nil {
+			ob(rule, construct, nil, token.NoPos, false, "", "unresolved anchor")
+		} else {
+			var xs, ys []string
+			for _, st := range c.Decl(fn).Body.List {
+				hasX, hasY := false, false
+				ast.Inspect(st, func(n ast.Node) bool {
+					if id, ok := n.(*ast.Ident); ok {
+						switch id.Name {
+						case "x", "X":
+							hasX = true
+						case "y", "Y":
+							hasY = true
+						}
+					}
+					return true
+				})
+				if hasX == hasY {
+					continue
+				}
+				str := alphaPrint(st, func(id *ast.Ident) string {
+					switch id.Name {
+					case "x", "y":
+						return "$v"
+					case "X", "Y":
+						return "$F"
+					}
+					return id.Name
+				})
+				if hasX {
+					xs = append(xs, str)
+				} else {
+					ys = append(ys, str)
+				}
+			}
+			same := len(xs) == len(ys) && len(xs) >= 2
+			for k := 0; same && k < len(xs); k++ {
+				if xs[k] != ys[k] {
+					same = false
+				}
+			}
+			site, name := c.Pos(fn.Pos()), fn.FullName()
+			st, d := core.Discharged, fmt.Sprintf("%d statements per coordinate, identical up to the exchange of x and y, X and Y", len(xs))
+			if !same {
+				st, d = core.Violated, fmt.Sprintf("the statements for x (%d) and for y (%d) are not the same up to the exchange of x/X and y/Y: one coordinate is tested against or wrapped with the other coordinate's period, so a tall Mercator edge (y difference above half the x period) is shifted by a whole x period and the tessellation heads for the wrong point", len(xs), len(ys))
+			}
+			obs = append(obs, core.Ob(rule, construct, site, name, st, d))
 		}
 	}
 
